@@ -2,6 +2,7 @@ import CuqiVerif.Model.C13_state
 import CuqiVerif.Props.C13
 import CuqiVerif.Props.C13_dst
 import CuqiVerif.Proofs.C13_state
+import CuqiVerif.Props.C13_shapes
 
 /-!
 # C13 (state) — the two pieces of derived state named by the property's anchors, over *all histories*
@@ -168,6 +169,30 @@ example : ((KLObj.init (some 9) (some 4) (klCoef 2) 12).run [.coefs, .setGrid (s
   (kl_roundtrip_after_history (some 9) (some 4) (klCoef 2) 12 (by norm_num) [.coefs, .setGrid (some 3), .coefsInv]
     3 (by norm_num) (fun _ => 1) 0 rfl (by decide) (klCoef_ne_zero 2 0)).2.1
 
+/-- **Conversion chains over a used / re-gridded `KLExpansion` are lossless** (bridge to `kl_chain_lossless`):
+    after any history that leaves the object with `N ≠ 0` nodes, the per-sample system `klSys N m` of the
+    object's *current* sizes (`m = o.m = min(num_modes, N)`; by `kl_par2fun_after_history` /
+    `kl_fun2par_after_history` these are the maps the object computes then) satisfies: any list of
+    `.parameters/.funvals/.vector` requests started from coefficients `p` runs through and a final
+    `.parameters` returns `p i`, `i < m`. -/
+theorem kl_chain_lossless_after_history (g nm : Option ℕ) (law : ℕ → ℚ) (τ : ℚ) (hτ : τ ≠ 0) (ops : List KLOp)
+    (N : ℕ) (hN : N ≠ 0) (hlaw : ∀ i, law i ≠ 0) (p : ℕ → ℝ) (cs : List Conv) :
+    let o := (KLObj.init g nm law τ).run ops
+    o.grid = some N →
+    o.m = klNumModes nm N ∧
+    ∃ s' s'', (klSys N o.m (fun i => ((law i : ℚ) : ℝ)) (τ : ℝ)).chain cs ⟨p, true, true⟩ = some s' ∧
+      (klSys N o.m (fun i => ((law i : ℚ) : ℝ)) (τ : ℝ)).convert .parameters s' = some s'' ∧ s''.isPar = true ∧
+      ∀ i, i < o.m → s''.data i = p i := by
+  intro o hg
+  obtain ⟨_, hp⟩ := run_spec ops (KLObj.init g nm law τ) (init_coherent g nm law τ)
+  have hm : o.m = klNumModes nm N := by unfold KLObj.m; rw [hp.1, hg]; rfl
+  have hle : o.m ≤ N := by have := m_le_grid o; rwa [hg] at this
+  exact ⟨hm, kl_chain_lossless N o.m hN hle _ _ (by exact_mod_cast hτ) (fun i _ => by exact_mod_cast hlaw i) p cs⟩
+
+example (p : ℕ → ℝ) : ((KLObj.init (some 9) (some 4) (klCoef 2) 12).run [.coefs, .setGrid (some 3)]).m = klNumModes (some 4) 3 :=
+  (kl_chain_lossless_after_history (some 9) (some 4) (klCoef 2) 12 (by norm_num) [.coefs, .setGrid (some 3)] 3 (by norm_num)
+    (klCoef_ne_zero 2) p [.funvals, .vector, .parameters, .funvals] rfl).1
+
 /-! ## StepExpansion -/
 
 /-- **`_indices` is never refreshed.**  After ANY sequence of grid re-assignments through the public
@@ -270,6 +295,40 @@ example : ∃ o, StepObj.init? [0, 1, 2, 3] none 2 (some .max) = some o ∧
   have h : (StepObj.init? [0, 1, 2, 3] none 2 (some .max)).isSome = true := by decide +kernel
   obtain ⟨o, ho⟩ := Option.isSome_iff_exists.1 h
   exact ⟨o, ho, step_obj_fresh_fun2par _ _ _ _ o ho (by norm_num) _⟩
+
+/-- **A re-gridded object whose stored partition is the new grid's IS the geometry `Geom.step` on the new
+    grid** (bridge to the `Geom`-level theorems: `samples_conversions_lossless_chain`,
+    `carr_conversions_lossless_chain`, `par2fun_batch_columnwise`, … quantify over `g : Geom` and
+    `samples_chain_columnwise` reduces a `Samples` chain to the per-sample maps): both maps of the
+    re-gridded object agree (same refusal / `nan` / numpy array) with those of
+    `Geom.step g' b' n_steps projection` on every input. -/
+theorem step_obj_regrid_is_geom (o o₂ : StepObj) (g' : List ℚ) (b' : Option (List ℚ)) (pr : Proj)
+    (hpr : o.proj = some pr) (hs : o.s ≠ 0)
+    (h₂ : StepObj.init? g' b' o.s (some pr) = some o₂) (hidx : o₂.indices = o.indices) (x : Arr) :
+    OptEqv ((o.setGrid g').par2fun x) ((Geom.step g' b' o.s pr).par2fun x) ∧
+    ExcEqv ((o.setGrid g').fun2par x) ((Geom.step g' b' o.s pr).fun2par x) := by
+  have h₂' : StepObj.init? g' b' o.s o.proj = some o₂ := by rw [hpr]; exact h₂
+  obtain ⟨e1, e2⟩ := step_obj_regrid_same_partition_partial o o₂ g' b' h₂' hidx x
+  rw [e1, e2]
+  exact ⟨step_obj_fresh_par2fun g' b' o.s (some pr) o₂ h₂ x, step_obj_fresh_fun2par g' b' o.s pr o₂ h₂ hs x⟩
+
+example : ∃ o o₂ : StepObj, StepObj.init? [0, 1, 2, 3] none 2 (some .mean) = some o ∧
+    StepObj.init? [0, 2, 4, 6] none 2 (some .mean) = some o₂ ∧ o₂.indices = o.indices ∧
+    ∀ x, OptEqv ((o.setGrid [0, 2, 4, 6]).par2fun x) ((Geom.step [0, 2, 4, 6] none 2 .mean).par2fun x) := by
+  have h : ((StepObj.init? [0, 1, 2, 3] none 2 (some .mean)).bind fun o =>
+      (StepObj.init? [0, 2, 4, 6] none 2 (some .mean)).map fun o₂ => decide (o₂.indices = o.indices)) = some true := by
+    decide +kernel
+  cases hA : StepObj.init? [0, 1, 2, 3] none 2 (some .mean) with
+  | none => simp [hA] at h
+  | some o =>
+    cases hB : StepObj.init? [0, 2, 4, 6] none 2 (some .mean) with
+    | none => simp [hA, hB] at h
+    | some o₂ =>
+      have hi : o₂.indices = o.indices := by simpa [hA, hB] using h
+      obtain ⟨_, hs, hp, _⟩ := init_fields hA
+      refine ⟨o, o₂, rfl, rfl, hi, fun x => ?_⟩
+      have := (step_obj_regrid_is_geom o o₂ [0, 2, 4, 6] none .mean hp (by rw [hs]; norm_num) (by rw [hs]; exact hB) hi x).1
+      rwa [hs] at this
 
 /-- **Re-assigning the grid breaks the maps** (the listed finding `StepExpansion:reassign:grid:*`, reproduced
     by the model): `StepExpansion(arange(6), n_steps=3)`, then `geom.grid = arange(9)`: `par2fun([1,2,3])`
